@@ -120,6 +120,7 @@ type Focus struct {
 	CleanSnap   bool // snapshot equality around Clean
 	Locators    bool
 	RealDepth   bool // use the real Clean/Load (depth 10000) instead of the hooks
+	StaleForks  bool // real-depth: always build 2..3 stale forks with the prune boundary among their tips
 }
 
 type M struct {
@@ -194,7 +195,40 @@ func newMachine(t *rapid.T, k *evid.Case, f Focus) *M {
 // the 1000-header file boundaries and the automatic clean at heights 10000 / 20000.
 func (m *M) buildBase(t *rapid.T, inst *Inst) {
 	n := rapid.SampledFrom([]int{9990, 9998, 10003, 10040, 19995, 20050, 10990, 11005}).Draw(t, "baseLength")
-	m.k.Op("base chain %d", n)
+	// stale forks: short side branches created early (within MaxBranchDepth of the tip at that
+	// moment, in a drawn order) that the base chain then outgrows by more than the prune depth
+	type stale struct{ fork, length int }
+	var stales []stale
+	staleAt := rapid.IntRange(100, 260).Draw(t, "staleAt")
+	lo, hi := 1<<30, 0
+	nStale := rapid.SampledFrom([]int{0, 0, 1, 2, 2, 3}).Draw(t, "staleForks")
+	if m.f.StaleForks {
+		nStale = rapid.IntRange(2, 3).Draw(t, "staleForksMany")
+	}
+	prevFork, prevTip := 0, 0
+	for s := 0; s < nStale; s++ {
+		f := rapid.IntRange(staleAt-min(m.mbd, 140), staleAt-2).Draw(t, "staleFork")
+		if s > 0 && prevTip > prevFork+1 && rapid.Bool().Draw(t, "overlapPrevious") {
+			// fork from the base chain inside the span of the previous stale fork
+			f = rapid.IntRange(prevFork+1, min(prevTip, staleAt-2)).Draw(t, "overlapFork")
+		}
+		if f < 1 {
+			f = 1
+		}
+		l := rapid.IntRange(1, staleAt-f-1).Draw(t, "staleLen")
+		stales = append(stales, stale{f, l})
+		prevFork, prevTip = f, f+l
+		lo, hi = min(lo, f+l), max(hi, f+l)
+	}
+	if len(stales) > 1 && rapid.Bool().Draw(t, "reverseCreationOrder") {
+		for i, j := 0, len(stales)-1; i < j; i, j = i+1, j-1 {
+			stales[i], stales[j] = stales[j], stales[i]
+		}
+	}
+	if len(stales) > 0 && (m.f.StaleForks || rapid.Bool().Draw(t, "pruneBoundaryAmongStaleTips")) {
+		n = 10000 + rapid.IntRange(max(1, lo-3), hi+3).Draw(t, "baseOver")
+	}
+	m.k.Op("base chain %d stale forks %v (created at %d)", n, stales, staleAt)
 	cur := m.tree.Genesis
 	for i := 0; i < n; i++ {
 		raw := m.newHeader(cur.Hash, cur.Raw.Timestamp, 0x1d00ffff)
@@ -208,8 +242,21 @@ func (m *M) buildBase(t *rapid.T, inst *Inst) {
 		if node.Height%10000 == 0 {
 			m.autoCleaned(inst) // ProcessHeader cleans automatically every 10000 heights
 		}
+		if node.Height == staleAt {
+			for _, st := range stales {
+				p := model.AncestorAt(node, st.fork)
+				for j := 0; j < st.length; j++ {
+					sraw := m.newHeader(p.Hash, p.Raw.Timestamp, 0x1d00ffff)
+					if err := inst.repo.ProcessHeader(vt.Ctx(), toWire(&sraw)); err != nil {
+						t.Fatalf("stale fork header (fork %d, #%d): %s", st.fork, j, err)
+					}
+					p = m.tree.AddChild(sraw)
+					inst.acc[p], inst.held[p] = true, true
+				}
+			}
+		}
 	}
-	m.base = n
+	m.base = len(m.tree.ByHash) - 1
 	m.afterStepFull(true)
 }
 
